@@ -115,9 +115,13 @@ def run(rep, F, ctx):
         ok_some = len(some) == 1 and bool(ex) and any(ds.startswith('exists(') and tr for ds, tr in known_facts(B, some[0][0]))
         iters = [k for k in keys if k.startswith('into_iter(')]
         ok_it = len(iters) == 1 and 'sys_config_dirs()' in iters[0]
-        ok = ok_ins and ok_ex and ok_some and ok_it
+        # the insertion at the front happens on every path to the search loop (it dominates the iteration)
+        ins_bb = [i for i, t in B.calls() if skey_call(B, t).startswith('insert(')]
+        it_bb = [i for i, t in B.calls() if skey_call(B, t).startswith('into_iter(')]
+        ok_dom = bool(ins_bb) and bool(it_bb) and all(B.dominates(a, b) for a in ins_bb for b in it_bb)
+        ok = ok_ins and ok_ex and ok_some and ok_it and ok_dom
         rep.add('PRIORITY', 'priority:%s' % be, '%s searches [config_dir()] + sys_config_dirs() in order and returns the first hit' % fn, ok, '%s:%d' % (B.file, B.line),
-                '' if ok else '%s: insert=%s exists-on-mash=%s returns-on-hit=%s iterates-list=%s' % (fn, ins, ok_ex, ok_some, iters))
+                '' if ok else '%s: insert=%s unconditional=%s exists-on-mash=%s returns-on-hit=%s iterates-list=%s — the user config directory is not always searched first' % (fn, ins, ok_dom, ok_ex, ok_some, iters))
         import re as _re
         shift = (lambda k: _re.sub(r'arg(\d)', lambda m: 'arg%d' % (int(m.group(1)) - 1), k.replace('exists(arg1,', 'exists('))) if be == 'memfs' else (lambda k: k)
         sk[be] = sorted(shift(k) for k in keys if not k.startswith('deref') and not k.startswith('as_ref'))
